@@ -38,7 +38,10 @@ Definition xop_tags (o : xop) : list N :=
        if 0 <? r_since cfg then 204 else 0;
        match r_reject cfg with [] => 0 | _ => 205 end;
        if (1 <? length outs)%nat then 206 else 0;
-       match splits with [] => 0 | _ => 209 end]
+       match splits with [] => 0 | _ => 209 end;
+       (* a delivered range starts exactly at a split key (boundary of [left, right)) *)
+       if existsb (fun out => match out with e :: _ => existsb (bytes_eqb (e_key e)) splits | [] => false end) outs
+       then 211 else 0]
   | ProdBegin _ _ => [210]
   | ProdRange _ _ _ _ _ => [207]
   end.
